@@ -909,6 +909,69 @@ func c08r4(p *Program, r *Report) {
 			}
 			return true
 		})
+		if bitVar == nil {
+			// a mask carried through the scan: 1<<63 before the loop over j = 0..63, shifted right by one as the last
+			// step of every iteration: in iteration j it is 1 << (63 - j) = 1 << streamOffset(j)
+			if mid, ok := ast.Unparen(st.mask).(*ast.Ident); ok && info2.Uses[mid] != nil {
+				mobj := info2.Uses[mid]
+				if loop, ok := p.enclosing(st.call, fi2.Decl, func(n ast.Node) bool {
+					f, is := n.(*ast.ForStmt)
+					return is && f.Init != nil && f.Cond != nil && f.Post != nil
+				}).(*ast.ForStmt); ok {
+					nInit, nShift, nOther := 0, 0, 0
+					ast.Inspect(fi2.Decl.Body, func(x ast.Node) bool {
+						switch y := x.(type) {
+						case *ast.AssignStmt:
+							for i, l := range y.Lhs {
+								lid, isId := l.(*ast.Ident)
+								if !isId || (info2.Defs[lid] != mobj && info2.Uses[lid] != mobj) {
+									continue
+								}
+								switch {
+								case (y.Tok == token.DEFINE || y.Tok == token.ASSIGN) && len(y.Rhs) == len(y.Lhs) && y.End() <= loop.Pos() && !p.inLoop(y, fi2.Decl):
+									if v, ok := p.evalConstExpr(fi2, y.Rhs[i]); ok && v == 1<<63 {
+										nInit++
+									} else {
+										nOther++
+									}
+								case y.Tok == token.SHR_ASSIGN && len(loop.Body.List) > 0 && loop.Body.List[len(loop.Body.List)-1] == ast.Stmt(y):
+									if k, ok := constInt(info2, y.Rhs[0]); ok && k == 1 {
+										nShift++
+									} else {
+										nOther++
+									}
+								default:
+									nOther++
+								}
+							}
+						case *ast.UnaryExpr:
+							if y.Op == token.AND && isIdentOf(info2, y.X, mobj) {
+								nOther++
+							}
+						case *ast.BranchStmt:
+							if y.Tok == token.CONTINUE && posWithin(loop.Body, y.Pos()) {
+								inner := p.enclosing(y, fi2.Decl, func(n ast.Node) bool {
+									switch n.(type) {
+									case *ast.ForStmt, *ast.RangeStmt:
+										return true
+									}
+									return false
+								})
+								if y.Label != nil || inner == ast.Node(loop) {
+									nOther++ // would skip the shift
+								}
+							}
+						}
+						return true
+					})
+					if as, ok := loop.Init.(*ast.AssignStmt); ok && len(as.Lhs) == 1 && nInit == 1 && nShift == 1 && nOther == 0 {
+						if jid, ok := as.Lhs[0].(*ast.Ident); ok && neverAssigned(info2, loop.Body, info2.Defs[jid]) {
+							bitVar = jid
+						}
+					}
+				}
+			}
+		}
 		bitsOK := false
 		if bitVar != nil {
 			if loop, ok := p.enclosing(st.call, fi2.Decl, func(n ast.Node) bool {
